@@ -564,6 +564,23 @@ def falsy_numeric_default(ctx, modules, rule="LINT-i"):
     for node in ast.walk(m.tree):
       if isinstance(node, ast.BoolOp) and isinstance(node.op, ast.Or) and len(node.values) >= 2:
         first = node.values[0]
+        if isinstance(first, ast.Name) and isinstance(node.values[-1], ast.Constant) and isinstance(node.values[-1].value, (int, float)) and not isinstance(node.values[-1].value, bool) \
+            and node.values[-1].value != 0:
+          # a local that was computed by int() / float() / len() ... (directly, in a conditional expression or through tuple unpacking)
+          fn_ = getattr(node, "_parent", None)
+          while fn_ is not None and not isinstance(fn_, (ast.FunctionDef, ast.AsyncFunctionDef)):
+            fn_ = getattr(fn_, "_parent", None)
+          numeric_local = False
+          for st in ast.walk(fn_) if fn_ is not None else []:
+            if isinstance(st, ast.Assign) and any(isinstance(t, ast.Name) and t.id == first.id for tg in st.targets for t in ast.walk(tg)):
+              if any(isinstance(c, ast.Call) and isinstance(c.func, ast.Name) and c.func.id in _NUMERIC_CTORS for c in ast.walk(st.value)):
+                numeric_local = True
+          if numeric_local and not isinstance(getattr(node, "_parent", None), (ast.If, ast.While, ast.BoolOp, ast.UnaryOp)):
+            n += 1
+            ctx.unit(m)
+            ctx.bad(rule, f"{ctx.ix.scope_name(m, node)}|{short(node, 60)}", ctx.where(m, node),
+                    f"`{short(node, 70)}`: `{first.id}` is a number computed above; `or` replaces the value 0 as well as a missing value (a legitimate 0 - transparent alpha, zero offset - becomes {short(node.values[-1], 20)})")
+          continue
         if isinstance(first, ast.Call) and isinstance(first.func, ast.Name) and first.func.id in _NUMERIC_CTORS \
             and not isinstance(node.values[-1], ast.Compare) and not isinstance(getattr(node, "_parent", None), (ast.If, ast.While, ast.BoolOp, ast.UnaryOp)):
           n += 1
